@@ -198,7 +198,7 @@ Definition obs (r : rs) (closing : bool) : val :=
   let s := r_s r in
   (* while the cancel loop is blocked, which free calls it has already cancelled depends on
      the pending table's iteration order: those entries are masked on both sides *)
-  let dw := match rd s with D3 _ | D4 _ => true | _ => false end in
+  let dw := match rd s with DC _ | D3 _ | D4 _ => true | _ => false end in
   VL [ VL (map (fun c =>
               let pending := c_dones c =? 0 in
               if dw && (pending || match c_stat c with StConnClosed => true | _ => false end)
@@ -209,7 +209,7 @@ Definition obs (r : rs) (closing : bool) : val :=
        VN (if dw then 0%N else N.of_nat (length (filter c_tab (calls s))));
        status_sym (st s);
        (match rd s with
-        | R2 => vsym "reading" | RLock _ _ => vsym "lockwait" | D3 _ | D4 _ => vsym "discwait"
+        | R2 => vsym "reading" | RLock _ _ => vsym "lockwait" | DC _ | D3 _ | D4 _ => vsym "discwait"
         | RDone => vsym "gone" | _ => vsym "other" end);
        (if negb closing then vsym "idle"
         else match cl s with CIdle => vsym "done" | _ => vsym "blocked" end) ].
